@@ -18,6 +18,8 @@ func Verif_C17_quorum() {
 		keys[i] = string(rune('a' + i))
 	}
 	bitmap := verifBytes("bitmap", (n+7)/8)
+	// known finding C17-padding-bits: bits beyond the group size are counted by verifyConsensusSize
+	verifKnown("C17-padding-bits", n%8 != 0 && bitmap[len(bitmap)-1]>>uint(n%8) != 0)
 	hsv := &HeaderSigVerifier{fallbackHeaderValidator: &verifNoFallback{}}
 	err := hsv.verifyConsensusSize(keys, &block.Header{PubKeysBitmap: bitmap})
 	if err == nil {
